@@ -101,6 +101,34 @@ def unusual_checkers(res, stats):
             if got[0] == "ok":
                 res.violation({"property": "C16", "kind": "oracle", "history": "Not(String(format=%r))(%r) with a checker raising %s" % (name, v, exc),
                                "what": "an enclosing `not` ACCEPTS the value: a rejection on account of the format was invented for a checker that raised"})
+        # checkers whose answer is truthy / falsy without being a bool (a match object, 1 / 0, a list)
+        import re as _re
+        fc.register("c16-ticket")(_re.compile(r"^[A-Z]+-\d+$").match)
+        fc.register("c16-even")(lambda v: 1 - len(v) % 2)
+        fc.register("c16-chars")(lambda v: [c for c in v if c.isdigit()])
+        for name, v, want in (("c16-ticket", "ABC-123", "ok"), ("c16-ticket", "abc", "rej"), ("c16-even", "ab", "ok"), ("c16-even", "", "ok"), ("c16-even", "a", "rej"),
+                              ("c16-chars", "a1", "ok"), ("c16-chars", "ab", "rej")):
+            for el in (String(format=name), Element(format=name)):
+                got = outcome(el, v)
+                stats["unusual_checker_calls"] = stats.get("unusual_checker_calls", 0) + 1
+                if got != (want, False):
+                    res.violation({"property": "C16", "kind": "oracle", "history": "register(%r)(<checker answering with a truthy / falsy non-bool>); check %r" % (name, v),
+                                   "what": "outcome %r (warned=%r), expected %r: a string is rejected on account of a format exactly when the checker's answer is false" % (got[0], got[1], want)})
+        # an unregistered format warns wherever the string sits - inside compositions too
+        from statham.schema.elements import AnyOf, OneOf, AllOf, Array, Integer, Null
+        from statham.schema.parser import parse_element
+        nested = [("AnyOf(String(format), Integer())", AnyOf(String(format="c16-nope"), Integer()), "abc"),
+                  ("OneOf(String(format), Null())", OneOf(String(format="c16-nope"), Null()), "abc"),
+                  ("AllOf(String(), Element(format))", AllOf(String(), Element(format="c16-nope")), "abc"),
+                  ("Array(AnyOf(String(format), Null()))", Array(AnyOf(String(format="c16-nope"), Null())), ["abc"]),
+                  ("parse {'type': ['string','null'], 'format': ...}", parse_element({"type": ["string", "null"], "format": "c16-nope"}), "abc"),
+                  ("Not(Not(String(format)))", Not(Not(String(format="c16-nope"))), "abc")]
+        for label, el, v in nested:
+            got = outcome(el, v)
+            stats["unusual_checker_calls"] = stats.get("unusual_checker_calls", 0) + 1
+            if got != ("ok", True):
+                res.violation({"property": "C16", "kind": "oracle", "history": "%s called on %r, nothing registered under the format" % (label, v),
+                               "what": "outcome %r, warning emitted: %r; an unregistered format never rejects and produces a warning" % (got[0], got[1])})
         for name, v, want in (("c16-natural", "12", "ok"), ("c16-natural", "-3", "rej"), ("c16-picky", "y", "ok"), ("c16-picky", "n", "rej")):
             got = outcome(String(format=name), v)
             if got != (want, False):
